@@ -375,4 +375,46 @@ theorem front_cls_correct_rmi_dec32 (e : Entry) (ch : List Entry) (hch : ch ∈ 
     simpa [r32] using hb
   · simp at hok
 
+/-! ### `evex()` together with decorations: EVEX is chosen anyway, the option changes no byte (64- and 32-bit mode) -/
+
+theorem vexEvexROptions_force (c : Model.X86.Ctx) (x options x' : BitVec 32) (hopt : options &&& ~~~0x80EC0000#32 = 0#32)
+    (hx' : vexEvexROptions c x options = .ok x') :
+    vexEvexROptions c (x ||| 0x10#32) (options ||| 0x1000#32) = .ok (x' ||| 0x10#32) := by
+  have t1 : (options ||| 0x1000#32) &&& (0x800000#32 ||| 0x40000#32 ||| 0x80000#32) = options &&& (0x800000#32 ||| 0x40000#32 ||| 0x80000#32) := by bv_decide
+  have t2 : (options ||| 0x1000#32) &&& (0x40000#32 ||| 0x80000#32) = options &&& (0x40000#32 ||| 0x80000#32) := by bv_decide
+  have t3 : (options ||| 0x1000#32) &&& 0x40000#32 = options &&& 0x40000#32 := by bv_decide
+  have t4 : (options ||| 0x1000#32) &&& 0x800000#32 = options &&& 0x800000#32 := by bv_decide
+  have t5 : (options ||| 0x1000#32) &&& 0x600000#32 = options &&& 0x600000#32 := by bv_decide
+  have t6 : ∀ y : BitVec 32, ((x ||| 0x10#32 ||| y) &&& 0x600000#32 != 0x400000#32) = ((x ||| y) &&& 0x600000#32 != 0x400000#32) := by
+    intro y
+    have : (x ||| 0x10#32 ||| y) &&& 0x600000#32 = (x ||| y) &&& 0x600000#32 := by bv_decide
+    rw [this]
+  simp only [vexEvexROptions, oZMask, oER, oSAE, t1, t2, t3, t4, t5, t6] at hx' ⊢
+  by_cases hA : (options &&& (0x800000#32 ||| 0x40000#32 ||| 0x80000#32) != 0#32) = true <;>
+  by_cases hB : (options &&& (0x40000#32 ||| 0x80000#32) != 0#32) = true <;>
+  by_cases hC : ((x ||| options &&& 0x800000#32) &&& 0x600000#32 != 0x400000#32 && c.hasBcst) = true <;>
+  by_cases hD : (options &&& 0x40000#32 != 0#32) = true <;>
+  by_cases hE : (!c.hasER) = true <;> by_cases hF : (!c.hasSAE) = true <;>
+  simp only [hA, hB, hC, hD, hE, hF, ↓reduceIte, Except.ok.injEq, reduceCtorEq] at hx' ⊢ <;>
+  first | (subst hx'; bv_decide) | (subst hx'; rfl) | skip
+
+/-- with a decoration in force, `evex()` changes no byte: every `front_cls_correct_*_dec` / `_dec32` theorem admits the option -/
+theorem emitVexEvexR_evex_dec (c : Model.X86.Ctx) (opcode options reg vvvvv rm aaa x' : BitVec 32) (imm : BitVec 64) (n : Nat)
+    (hpe : c.preferEvex = false) (hk : c.extraId = aaa) (ha : aaa < 8#32)
+    (hopt : options &&& ~~~0x80EC0000#32 = 0#32) (hdec : aaa ≠ 0#32 ∨ options &&& 0x008C0000#32 ≠ 0#32)
+    (hx' : vexEvexROptions c (xR opcode 0#32 reg vvvvv rm aaa) options = .ok x') :
+    emitVexEvexR c opcode (options ||| oEvex) (reg + (vvvvv <<< 7)) rm imm n = emitVexEvexR c opcode options (reg + (vvvvv <<< 7)) rm imm n := by
+  rw [emitVexEvexR_dec32 c opcode options reg vvvvv rm aaa x' imm n hpe hk ha hopt hdec hx']
+  have hxe : extractLLMMMMM opcode (options ||| 0x1000#32) = extractLLMMMMM opcode 0#32 ||| 0x10#32 := by
+    simp only [extractLLMMMMM, oEvex, kLL_Mask, kMM_Mask]; bv_decide
+  have hx : xR opcode 0#32 reg vvvvv rm aaa = xOfR opcode 0#32 (reg + (vvvvv <<< 7)) rm aaa := rfl
+  rw [hx] at hx'
+  unfold xOfR at hx'
+  have hx2 := vexEvexROptions_force c _ options x' hopt hx'
+  have hxx : ((reg + (vvvvv <<< 7)) <<< 4 &&& 0xF980#32 ||| rm <<< 2 &&& 0x60#32 ||| (extractLLMMMMM opcode 0#32 ||| 0x10#32) ||| aaa <<< 16) =
+      ((reg + (vvvvv <<< 7)) <<< 4 &&& 0xF980#32 ||| rm <<< 2 &&& 0x60#32 ||| extractLLMMMMM opcode 0#32 ||| aaa <<< 16) ||| 0x10#32 := by bv_decide
+  have hne : ((x' ||| 0x10#32) &&& 0x00D78150#32 != 0#32) = true := by simp only [bne_iff_ne, ne_eq]; bv_decide
+  have hw : evexWord (x' ||| 0x10#32) opcode = evexWord x' opcode := by simp only [evexWord]; bv_decide
+  simp only [emitVexEvexR, oEvex, hk, hxe, hxx, hx2, hpe, Bool.false_and, Bool.false_eq_true, ↓reduceIte, hne, hw, bind, Except.bind, pure, Except.pure, modrmRR]
+
 end AsmjitVerif.Props.C01
